@@ -278,13 +278,18 @@ def miri_c18(tier, seed):
     return out
 
 
-def c11_cli_train(tier, seed):
+def c12_cli_train(tier, seed):
+    """C12 at the tool level: tagged corpora and tag dictionaries spread over several files of the same option"""
+    return c11_cli_train(tier, seed, "C12")
+
+
+def c11_cli_train(tier, seed, family="C11"):
     """C11 at the tool level: the real `train` binary on generated corpora, dictionaries and tag dictionaries written to files"""
-    r = subprocess.run([HARNESS, "c11cli", tier, str(seed)], capture_output=True, text=True, env=ENV)
+    r = subprocess.run([HARNESS, "c11cli", tier, str(seed), family], capture_output=True, text=True, env=ENV)
     m = re.search(r"cli_train runs=(\d+) models_written=(\d+) failures=(\d+)", r.stdout)
     out = {"name": "cli_train", "evaluations": int(m.group(1)) if m else 0, "failures": [], "suspicions": [],
            "note": (f"train tool: {m.group(1)} runs, {m.group(2)} models written; " if m else "") +
-                   "success/failure agrees with the library on the same data, no panic, the written model passes the C11 oracle, has the requested windows and only dictionary-file words"}
+                   "success/failure agrees with the library on the same data, no panic, the written model passes the C11 oracle, has the requested windows, only dictionary-file words, and the same tag models (tokens and candidate tags) as the library trained on the same data; every other run spreads corpus and dictionary over several files per option"}
     if r.returncode != 0 or m is None:
         out["failures"].append({"what": "the train tool run crashed", "stderr": r.stderr[-500:]})
     for f in [l for l in r.stdout.splitlines() if l.startswith("FAIL")][:3]:
